@@ -13,7 +13,7 @@ CHECKS = {
         "note": "Trusted: the reference linking model written from conversion/tutorial.rst and extended-usage.rst. Not asserted: TypedDict source with an absent linked NotRequired key, source predicates matching both a field and a parameter, unsatisfiable link_function on optional fields. One open known finding (class predicate vs NotRequired[T] field).",
     },
     "C14": {
-        "technique": "bounded exhaustive enumeration + property-based sampling against a documented relation: all ordered pairs of a pool of 77 field types x up to 6 link-policy configurations (exhaustive), unlinked destination fields enumerated at top level and nested, nested types sampled by Hypothesis; oracle = independently written three-valued coercible(S, D) relation AND, independent of it, structural conformance of converted canonical values to the destination type",
+        "technique": "bounded exhaustive enumeration + property-based sampling against a documented relation: all ordered pairs of a pool of 77 field types x up to 6 link-policy configurations (exhaustive), unlinked destination fields enumerated at top level and nested, nested types sampled by Hypothesis; oracle = independently written three-valued coercible(S, D) relation AND, independent of it, structural conformance of converted canonical values to the destination type Runtime values of abstract source types include non-dict mappings (MappingProxyType, ChainMap) and non-list sequences (tuple, deque).",
         "text": "Exploration with an exhaustive pair sweep: a created converter must be justified by the documented coercion rules and must never place a value that does not conform to the destination type; creation may fail only with ProviderNotFoundError.",
         "note": "Trusted: the coercible relation transcribed from conversion/tutorial.rst 'Type coercion' and the structural conformance checker. Refusing a documented-coercible pair is counted, not reported (the property is one-directional).",
         "engine": "enumeration+hypothesis",
@@ -29,36 +29,36 @@ CHECKS = {
         "note": "Trusted: the reference layout model (props/c03_model_layout.py, section RefLayout). Modelled as observed and consistent between loader and dumper: TypedDict fields ordered by name in list layouts, containers of nested paths always dumped / required. Two open known findings (container skeleton in collected extras - pinned by the suite; omit_default compares the dumped value).",
     },
     "C10": {
-        "technique": "bounded exhaustive enumeration against a reference evaluator + property-based sampling: every enumerated predicate expression (atoms, chains <= 3, negations, binary combinations) is evaluated on every location stack of a bounded universe and compared with an independent evaluator written from the tutorial; documented identities and boolean laws compared as truth tables; deeper expressions / stacks sampled by Hypothesis; end-to-end part with marker loaders and a spy provider",
+        "technique": "bounded exhaustive enumeration against a reference evaluator + property-based sampling: every enumerated predicate expression (atoms, chains <= 3, negations, binary combinations) is evaluated on every location stack of a bounded universe and compared with an independent evaluator written from the tutorial; documented identities and boolean laws compared as truth tables; deeper expressions / stacks sampled by Hypothesis; end-to-end part with marker loaders and a spy provider Plus an exhaustive sweep of the facade factories that take several predicates (enum_by_name, flag_by_member_names, enum_by_value x every list of 0-3 predicates over 16 atoms).",
         "text": "Exploration with an exhaustive part (quick: 3 814 expressions x 1 329 stacks; thorough: 8 831 x 21 714) plus sampled and end-to-end parts; documented examples are fixed probes.",
         "note": "Trusted: the reference evaluator (vkit/c10_helpers.py). Unspecified (counted): bare list/dict predicates vs parametrised location types, abstract classes vs parametrised generics, strings on function-field locations; re.Pattern predicates and data protocols are not generated.",
         "engine": "enumeration+hypothesis",
     },
     "C12": {
-        "technique": "schedule enumeration and PCT-style random schedule generation with a harness-owned deterministic thread scheduler (sys.monitoring / sys.settrace line events in the retort files as yield points; one thread released at a time); oracle = single-threaded reference outcomes during and after the race; hangs need confirmation in a fresh interpreter",
+        "technique": "schedule enumeration and PCT-style random schedule generation with a harness-owned deterministic thread scheduler (sys.monitoring / sys.settrace line events in the retort files as yield points; one thread released at a time); oracle = single-threaded reference outcomes during and after the race; hangs need confirmation in a fresh interpreter Plus a cold-process part: every schedule in a fresh interpreter with line events on every file of the adaptix package, preemption at the lines that only the first (cold) creation of a process executes (found by diffing a cold and a warm line profile).",
         "text": "Exploration of interleavings: exhaustive single-preemption sweeps (all yield points / conflict lines), two-preemption products over conflict lines, Hypothesis-generated programs with PCT schedules; 7 model families incl. recursive and mutually recursive ones, 2-3 threads.",
         "note": "Limits: Python statement granularity, GIL build, <= 3 threads, <= 2 systematic preemptions; wall clock is used only as a liveness fallback, never as a verdict (budget overruns and unconfirmed hangs are inconclusive counters).",
         "engine": "vkit/sched.py + hypothesis",
     },
     "C09": {
-        "technique": "bounded exhaustive enumeration + property-based sampling against a reference model: all recipes up to length 3 (quick) / 4 (thorough) over a 21-entry core alphabet and up to 2 / 3 over the full 70-entry alphabet, longer recipes sampled by Hypothesis with a block grammar; oracle = independent linear chain-of-responsibility interpreter comparing the type-exact value and the exact per-request consultation log",
+        "technique": "bounded exhaustive enumeration + property-based sampling against a reference model: all recipes up to length 3 (quick) / 4 (thorough) over a 21-entry core alphabet and up to 2 / 3 over the full 70-entry alphabet, longer recipes sampled by Hypothesis with a block grammar; oracle = independent linear chain-of-responsibility interpreter comparing the type-exact value and the exact per-request consultation log Extended by recursive request types (Node, List[Node]; values asserted at every nesting level), retorts derived (extend / replace) from an already placed or used retort and then placed themselves, and a model with NewType / Annotated fields (two open known findings are classified there by a transcription of the two-step lookup).",
         "text": "Exploration with exhaustive short-recipe part: marker functions make the composition order readable from the result; a logging Provider records every consultation; extend(), replace(), class-level recipes (MRO), nested and bound retorts, loaders and dumpers are covered.",
         "note": "Trusted: the reference interpreter and the logging wrapper (20% of sampled cases use raw loader()/dumper() providers to guard against the wrapper hiding something). Not covered: non-located request classes, terminal CannotProvide, location stacks deeper than two.",
         "engine": "enumeration+hypothesis",
     },
     "C17": {
-        "technique": "differential property-based testing across model kinds: one generated logical model is realised as dataclass / NamedTuple / TypedDict / attrs / pydantic / SQLAlchemy classes (documented limitations as applicability predicates); loads, dumps, error structures, name_mapping effects and inter-kind converters are compared pairwise",
+        "technique": "differential property-based testing across model kinds: one generated logical model is realised as dataclass / NamedTuple / TypedDict / attrs / pydantic / SQLAlchemy classes (documented limitations as applicability predicates); loads, dumps, error structures, name_mapping effects and inter-kind converters are compared pairwise Plus an exhaustive family of models whose constructor parameter is not the field id (attrs private / alias, pydantic alias; positional, keyword-only, after a skipped optional): loaded under 3 debug modes and converted from each other.",
         "text": "Exploration: the same input must load to field-wise equal objects, equal objects must dump to equal data, bad input must produce the same flattened error structure (ALL mode), converters between kinds must copy every field.",
         "note": "Trusted: the per-kind class builders and the applicability predicates transcribed from docs/reference/integrations.rst.",
     },
     "C11": {
         "technique": "stateful (model-based) property-based testing: Hypothesis RuleBasedStateMachine generates histories of facade calls over a pool of mutually confusable hints (plus replace/extend, LRU churn, failing requests); after every step a probe battery is compared between the warm objects and a freshly constructed equal retort",
         "text": "Exploration over generated call histories (up to 40 steps): warm and fresh retorts must give the same outcomes, loaders obtained earlier must keep answering the same, replace()/extend() must not change the original.",
-        "note": "Trusted: the differential oracle (fresh retort with identical provider objects); structural comparison of results and flattened exceptions.",
+        "note": "Trusted: the differential oracle (fresh retort built with the same arguments from provider objects of its own); structural comparison of results and flattened exceptions.",
         "engine": "hypothesis-stateful",
     },
     "C19": {
-        "technique": "dictionary-seeded property-based testing / fuzzing of the three code generators: Hypothesis draws field ids, class / stub names, mapped keys and defaults from hostile dictionaries (internal identifiers, builtins, metacharacters, code fragments calling a canary) plus st.text; oracle = generation succeeds, layout behaviour, canary never hit, stub signature preserved",
+        "technique": "dictionary-seeded property-based testing / fuzzing of the three code generators: Hypothesis draws field ids, class / stub names, mapped keys and defaults from hostile dictionaries (internal identifiers, builtins, metacharacters, code fragments calling a canary) plus st.text; oracle = generation succeeds, layout behaviour, canary never hit, stub signature preserved Converter cases also carry link_function functions with hostile __name__ (keywords, names of generated variables, pairs colliding after the g_ prefix, empty) and a nested pair of models named like the outer pair; TypedDict keys include Python keywords.",
         "text": "Exploration of model loader, model dumper, get_converter and impl_converter generation over hostile names and keys; any evaluation of injected text is observed through a canary module.",
         "note": "Trusted: the canary (vkit_canary) and the flat layout reference; open known finding C19-nfkc-typeddict-key is excluded by construction for ~97% of the budget and still probed.",
     },
@@ -73,7 +73,7 @@ CHECKS = {
         "note": "Trusted: the rewrite catalogue (each rewrite is meaning-preserving by Python typing semantics); normalize_type is the only non-facade observation point, as the property says.",
     },
     "C20": {
-        "technique": "property-based testing: generated load / dump / collected-extras / convert calls made twice on the same argument; deep before/after snapshots and a type-directed identity (id()) scan of mutable containers across both results and the argument",
+        "technique": "property-based testing: generated load / dump / collected-extras / convert calls made twice on the same argument; deep before/after snapshots and a type-directed identity (id()) scan of mutable containers across both results and the argument Converter twins share the source's class environment and change dict fields as well (Optional value type / abstract Mapping origin); dump and load cases also run under non-default representations (flag_by_member_names, enum_by_name, timestamps).",
         "text": "Exploration: arguments are never mutated, repeated calls give equal results, and no mutable container adaptix builds is shared between two results or with the argument (except below Any/object positions).",
         "note": "Trusted: structural snapshot (canon) and the type-directed walk that knows the Any/object positions; one-shot inputs exempt.",
     },
@@ -83,7 +83,7 @@ CHECKS = {
         "note": "Trusted: the harness's type-aware comparator and class builder; unions are generated with provably non-overlapping, dumpable cases; values stay inside documented lossless ranges (timedelta, Pattern flags).",
     },
     "C02": {
-        "technique": "property-based testing against a reference model: Hypothesis-generated non-model type expressions x data soup / near-valid mutations x 6 modes, compared with an independent three-valued interpreter of the documented per-type rules; exhaustive small sub-check of the union dumper's MRO rule",
+        "technique": "property-based testing against a reference model: Hypothesis-generated non-model type expressions x data soup / near-valid mutations x 6 modes, compared with an independent three-valued interpreter of the documented per-type rules; exhaustive small sub-check of the union dumper's MRO rule Plus an exhaustive Literal table (36 Literals with bool/int look-alikes, enum and bytes members x 25 probe data x plain/Optional/List x 6 modes) compared with the same reference.",
         "text": "Exploration: accept(v) must load to a type-exactly equal value, reject must raise, unspecified is only counted; dumps must equal the documented outer form including container classes.",
         "note": "Trusted: the reference interpreter (vkit/refload.py, vkit/tspec.ref_dump) transcribed from specific-types-behavior.rst; Python constructors as the lax-coercion oracle.",
     },
@@ -98,12 +98,12 @@ CHECKS = {
         "note": "Trusted: structural comparator (canon); 'same class' read as 'ALL has a node that is-a the class raised' because the union loader raises bare LoadError under DISABLE (pinned by the suite).",
     },
     "C07": {
-        "technique": "differential property-based testing: strict vs lax retort on one generated (type, datum); positional walk of type and datum against the documented 'allowed strict origins' table",
+        "technique": "differential property-based testing: strict vs lax retort on one generated (type, datum); positional walk of type and datum against the documented 'allowed strict origins' table Plus the Literal table of C02 evaluated through this property's own strict-vs-lax oracle.",
         "text": "Exploration: strict-accepted data must be lax-accepted with an equal value (unless unions overlap under lax rules), and strict acceptance must respect the documented origins at every position.",
         "note": "Trusted: the origins table transcription; overlap analysis (tspec.lax_safe).",
     },
     "C04": {
-        "technique": "property-based testing + coverage-guided fuzzing: (1) Hypothesis-generated type expressions x data soup (arbitrary data and near-valid mutations of valid dumps) x 6 modes with an exception-validity oracle, user-code sub-check for the second sentence; (2) Atheris / libFuzzer target (fuzz/c04_atheris.py): bytes -> table of generated loaders + recursively decoded datum, same oracle inside the target, saved cases re-run through the ordinary oracle",
+        "technique": "property-based testing + coverage-guided fuzzing: (1) Hypothesis-generated type expressions x data soup (arbitrary data and near-valid mutations of valid dumps) x 6 modes with an exception-validity oracle, user-code sub-check for the second sentence; (2) Atheris / libFuzzer target (fuzz/c04_atheris.py): bytes -> table of generated loaders + recursively decoded datum, same oracle inside the target, saved cases re-run through the ordinary oracle Plus an exhaustive hostile-scalar table (type-aimed malformed strings and constructor-shaped data per scalar type, general hostile strings / numbers, an int above the int-to-str digit limit; bare / list element / dict value / dict key; 6 modes), ints above the digit limit planted into generated data, sets with unhashable element types, saturator layouts.",
         "text": "Exploration: every escaping exception tree must consist of LoadError nodes only; with user code raising ArithmeticError the escaping exception must not be classified as LoadError.",
         "note": "Trusted: exception flattening helper; input nesting capped (RecursionError on over-deep data not counted); ExtraKwargs excluded (documented TypeError zone).",
     },
